@@ -27,7 +27,7 @@ def load_known(prop):
 
 def match(kf, cond_name, failure):
     for k in kf:
-        if k["kind"] != failure["kind"] or k["site"] != failure["site"]:
+        if k["kind"] != failure["kind"] or not fnmatch.fnmatchcase(failure["site"], k["site"].replace("[", "[[]")):
             continue
         if k.get("cond") and not fnmatch.fnmatchcase(cond_name, k["cond"]):
             continue
